@@ -38,7 +38,7 @@ impl Property for C09 {
         "deterministic simulation with fault injection: bad commands (byte-level damage, catalogue of ill-typed mutations, run-time failures, I/O failures) inserted at arbitrary positions of seeded sessions, differential oracle against the session without the bad command, process death observed by the driver"
     }
     fn rule(&self) -> &'static str {
-        "case = seeded session S1 ++ [bad] ++ S2 (S2 re-declares and re-uses names the bad command touched) in plain / term-encoding / proof mode, executed in a worker process so that an abort or stack overflow is an observation. Oracles: no command ever panics or kills the process; if the bad command was rejected before execution (parse, desugar, type, shadowing, unknown ruleset/name, pop on empty stack ...) then every outcome and dump of S2 equals the run without it; after an execution failure I(E) holds and S2 runs without panic. Non-trivial = the bad command was really refused; distinct = distinct operation lists."
+        "case = seeded session S1 ++ [bad] ++ S2 (half of S1's rules carry :name; the bad commands include re-declaring an existing rule name with another head; S2 re-declares and re-uses names the bad command touched) in plain / term-encoding / proof mode, executed in a worker process so that an abort or stack overflow is an observation. Oracles: no command ever panics or kills the process; if the bad command was rejected before execution (parse, desugar, type, shadowing, unknown ruleset/name, pop on empty stack ...) then every outcome and dump of S2 equals the run without it; after an execution failure I(E) holds and S2 runs without panic. Non-trivial = the bad command was really refused; distinct = distinct operation lists."
     }
     fn assumptions(&self) -> Vec<String> {
         vec![
